@@ -145,7 +145,7 @@ func c17HistProfile(tier Tier) *explore.Profile {
 	if tier.Thorough() {
 		depth = 3
 	}
-	mo := menuOpts{thorough: tier.Thorough(), shards: 2}
+	mo := menuOpts{thorough: tier.Thorough(), shards: 2, undisciplined: true}
 	return &explore.Profile{
 		Name: "fault-histories", EnvCfg: ledgerEnv(2), Seeds: seedsOf("mixed", "frozen", "handover", "refunds", "refunds-with-call"), Depth: depth, Deadline: tierDeadline(tier), WithGhost: true,
 		Menu: func(w *world.World) []world.Action {
